@@ -9,12 +9,13 @@ correspondence of the layout harness.
 from vlib import histcheck
 
 MODULE = "TriompheModel.Props.C12"
+EXTRA = ["TriompheModel.Props.C12Arith"]
 TAGS = ["C12"]
 WEIGHTS = dict(create=18, conv=24, clone=18, cloneArc=14, cb=12, drop=12)
 
 
 def run(ctx):
-    histcheck.run(ctx, MODULE, WEIGHTS, TAGS)
+    histcheck.run(ctx, MODULE, WEIGHTS, TAGS, lean_extra=EXTRA)
     try:
         from vlib import layout_corr
     except ImportError:
